@@ -293,6 +293,10 @@ func (t CollectionPath) Of(i Item) Item {
 // OfActor returns the base IRI of received i, if i represents an IRI matching CollectionPath type t
 func (t CollectionPath) OfActor(i IRI) (IRI, error) {
 	maybeActor, maybeCol := filepath.Split(i.String())
+	if u, err := i.URL(); err == nil && len(u.Host) > 0 && len(strings.Trim(u.Path, "/")) == 0 {
+		// NOTE(marius): the URL has no path, what looks like its last segment is the host (https://inbox)
+		maybeCol = ""
+	}
 	if strings.EqualFold(maybeCol, string(t)) {
 		maybeActor = strings.TrimRight(maybeActor, "/")
 		return IRI(maybeActor), nil
